@@ -42,6 +42,9 @@ pub struct ExMutexGuard<'a, T: ?Sized + 'a>(std::sync::MutexGuard<'a, T>);
 pub uninterp spec fn mutex_poisoned<T: ?Sized>(l: &std::sync::Mutex<T>) -> bool;
 pub assume_specification<T: ?Sized>[ std::sync::Mutex::<T>::lock ](l: &std::sync::Mutex<T>) -> (r: std::sync::LockResult<std::sync::MutexGuard<'_, T>>)
     ensures r is Ok <==> !mutex_poisoned(l);
+/// a new mutex is not poisoned
+pub assume_specification<T>[ std::sync::Mutex::<T>::new ](t: T) -> (r: std::sync::Mutex<T>)
+    ensures !mutex_poisoned(&r);
 pub assume_specification<'a, 'b, T: ?Sized>[ <std::sync::MutexGuard<'a, T> as core::ops::DerefMut>::deref_mut ](g: &'b mut std::sync::MutexGuard<'a, T>) -> (r: &'b mut T);
 pub assume_specification<'a, 'b, T: ?Sized>[ <std::sync::MutexGuard<'a, T> as core::ops::Deref>::deref ](g: &'b std::sync::MutexGuard<'a, T>) -> (r: &'b T);
 
